@@ -136,6 +136,9 @@ func genFont(r *vlib.Rand, o *genOpts) *Desc {
 		c := choices[i]
 		cm := CMap{PID: c.pid, EID: c.eid, Fmt: c.f}
 		k := r.Intn(2*n + 2)
+		if k > 600 {
+			k = 600 // cmap format 4 has a segment limit (C09)
+		}
 		hi := 0xFFFE
 		if c.f == 12 && r.Bool() {
 			hi = 0x10FFFF
